@@ -31,7 +31,7 @@ rm "$demodst"
 # 3. checks against the patched copy
 caught=""
 for p in C01 C02 C03 C04 C05 C06 C07 C08 C09 C10 C11 C12 C13 C14 C15 C16 C17 C18 C19 C20; do
-  o=$(/verif/bin/resverif check -p $p -repo "$wt" -no-evidence 2>&1); r=$?
+  o=$(${RESVERIF:-/verif/bin/resverif} check -p $p -repo "$wt" -no-evidence 2>&1); r=$?
   if [ $r -eq 1 ]; then
     rules=$(echo "$o" | grep -E "^  (VIOLATION|UNDECIDED): " | sed 's/^  [A-Z]*: //' | sort -u | paste -sd',')
     caught="$caught\"$p\":\"$rules\","
